@@ -549,6 +549,81 @@ static void indexed_src_case(uint64_t idx, void *vctx)
     if (!vf_in_confirm) vf_outcome(vf_mix(h, idx * 53 + (uint64_t)oi + 7));
 }
 
+/* ---------------- source and mask origins: the request may start before / end after a REPEAT_NONE source or mask (which is transparent there) ----------------
+ * One row; every combination of (source origin, mask origin) in {-3, 0, 2} x {-2, 0, 1}, so that the fetchers deliver a transparent run, then pixels, then a
+ * transparent run again; narrow and wide pipelines; judged by the equations with S (or M) = 0 outside the image. */
+static void origin_case(uint64_t idx, void *vctx)
+{
+    (void)vctx;
+    static const pixman_format_code_t dfm[3] = { PIXMAN_a8r8g8b8, PIXMAN_a2r10g10b10, PIXMAN_rgba_float }; static const char *dfn[3] = { "a8r8g8b8", "a2r10g10b10", "rgba_float" };
+    static const pixman_format_code_t sfm[3] = { PIXMAN_a8r8g8b8, PIXMAN_r5g6b5, PIXMAN_a2r10g10b10 }; static const char *sfn[3] = { "a8r8g8b8", "r5g6b5", "a2r10g10b10" };
+    static const int SX[3] = { -3, 0, 2 }, MX[3] = { -2, 0, 1 };
+    int dims[7] = { RC_NOPS, 3, 3, 3, 3, 3, 2 }, v[7]; vf_decode(idx, dims, 7, v);
+    int op = rc_all_ops[v[0]], di = v[1], si = v[2], sx = SX[v[3]], mi = v[4] /* 0 none, 1 a8, 2 a8r8g8b8 CA */, mx = MX[v[5]], cfg = v[6] ? PH_CFG_GENERAL : PH_CFG_DEFAULT;
+    enum { SN = 9, N = 12 };       /* source / mask images are SN wide, the request N wide */
+    ph_fmt_t df, sf, mf; ph_fmt_describe(dfm[di], dfn[di], &df); ph_fmt_describe(sfm[si], sfn[si], &sf); ph_fmt_describe(mi == 2 ? PIXMAN_a8r8g8b8 : PIXMAN_a8, mi == 2 ? "a8r8g8b8" : "a8", &mf);
+    static uint32_t sbuf[SN * 4 + 8], mbuf[SN * 4 + 8], dbuf[N * 4 + 8]; memset(sbuf, 0, sizeof sbuf); memset(mbuf, 0, sizeof mbuf); memset(dbuf, 0, sizeof dbuf);
+    static rc_real S[SN][4], M[SN][4], D[N][4]; static unsigned S8[SN][4], M8[SN][4], D8[N][4]; static uint32_t Draw[N];
+    uint64_t ns = fmt_npix(&sf), nm = fmt_npix(&mf), nd = fmt_npix(&df);
+    for (int i = 0; i < SN; i++) { uint32_t raw; float fl[4]; fmt_make_pixel(&sf, ((uint64_t)i * 37 + 11) % ns, &raw, fl, S[i], S8[i]); fmt_store(&sf, sbuf, i, raw, fl);
+                                   fmt_make_pixel(&mf, ((uint64_t)i * 53 + 7) % nm, &raw, fl, M[i], M8[i]); fmt_store(&mf, mbuf, i, raw, fl); }
+    for (int i = 0; i < N; i++) { uint32_t raw; float fl[4]; fmt_make_pixel(&df, ((uint64_t)i * 101 + 3) % nd, &raw, fl, D[i], D8[i]); fmt_store(&df, dbuf, i, raw, fl); Draw[i] = raw; }
+    ph_set_cfg(cfg);
+    pixman_image_t *src = pixman_image_create_bits(sf.code, SN, 1, sbuf, sizeof sbuf - 32), *dst = pixman_image_create_bits(df.code, N, 1, dbuf, sizeof dbuf - 32);
+    pixman_image_t *msk = mi ? pixman_image_create_bits(mf.code, SN, 1, mbuf, sizeof mbuf - 32) : NULL;
+    if (mi == 2) pixman_image_set_component_alpha(msk, 1);
+    pixman_image_composite32(op, src, msk, dst, sx, 0, mx, 0, 0, 0, N, 1);
+    vf_count_libcalls(1);
+    pixman_image_unref(src); pixman_image_unref(dst); if (msk) pixman_image_unref(msk);
+    int mode = mi == 0 ? RC_MASK_NONE : mi == 1 ? RC_MASK_UNIFIED : RC_MASK_CA;
+    int wide = fmt_is_wide(&df) || fmt_is_wide(&sf);
+    int exact = rc_is_exact_op(op) && !wide;
+    int integer_blend = rc_is_sep_blend(op) && !(op == PIXMAN_OP_COLOR_DODGE || op == PIXMAN_OP_COLOR_BURN || op == PIXMAN_OP_SOFT_LIGHT) && !wide;
+    int steps = integer_blend ? (mode == RC_MASK_NONE ? 2 : 3) : 1;
+    int blend = rc_is_sep_blend(op) || rc_is_hsl(op);
+    if (rc_is_hsl(op) && mode == RC_MASK_CA) return;
+    char cfgn[64]; uint64_t nt = 0, h = 0;
+    int dw[4] = { df.aw, df.rw, df.gw, df.bw }, dsft[4] = { df.as, df.rs, df.gs, df.bs };
+    static const rc_real Z[4] = { 0, 0, 0, 0 }; static const unsigned Z8[4] = { 0, 0, 0, 0 };
+    for (int i = 0; i < N; i++) {
+        int sp = sx + i, mp = mx + i;
+        const rc_real *Sp = (sp >= 0 && sp < SN) ? S[sp] : Z, *Mp = !mi ? NULL : (mp >= 0 && mp < SN) ? M[mp] : Z;
+        const unsigned *S8p = (sp >= 0 && sp < SN) ? S8[sp] : Z8, *M8p = (mp >= 0 && mp < SN) ? M8[mp] : Z8;
+        rc_real Mr[4] = { 1, 1, 1, 1 }; if (Mp) for (int k = 0; k < 4; k++) Mr[k] = Mp[k];
+        if (mi == 1) { Mr[1] = Mr[2] = Mr[3] = Mr[0]; }
+        rc_real r[4];
+        if (blend && !valid_premul(Sp, D[i])) continue;
+        if (saturate_undefined(op, mode, Sp, Mr, D[i])) continue;
+        char what[260]; snprintf(what, sizeof what, "op=%s %s cfg=[%s] dest %s <- source %s (9 wide, REPEAT_NONE) at origin %d%s%s, request 12 wide: pixel %d", rc_op_name(op), mode_name(mode), ph_cfg_name(cfg, cfgn, sizeof cfgn),
+                                  dfn[di], sfn[si], sx, mi ? ", mask at origin " : "", mi ? (mx == -2 ? "-2" : mx == 0 ? "0" : "1") : "", i);
+        if (df.is_float) {
+            float *p = (float *)dbuf; float g[4] = { p[4 * i + 3], p[4 * i], p[4 * i + 1], p[4 * i + 2] };
+            if (!rc_real_pixel(op, mode, Sp, Mr, D[i], r)) continue;
+            for (int k = 0; k < 4; k++) { rc_real diff = (rc_real)g[k] - r[k]; if (diff < 0) diff = -diff;
+                if (!(diff <= 1e-4L)) { vf_violation("c01-origin-mismatch", "%s: channel %c got %.6f, equations give %.6Lf", what, "argb"[k], g[k], r[k]); return; } }
+            nt++; continue;
+        }
+        uint32_t got = ph_get_pixel(dbuf, df.bpp, i);
+        if (exact) {
+            uint32_t sv = S8p[0] << 24 | S8p[1] << 16 | S8p[2] << 8 | S8p[3], mv = mi == 0 ? 0 : mi == 1 ? M8p[0] << 24 : (M8p[0] << 24 | M8p[1] << 16 | M8p[2] << 8 | M8p[3]);
+            uint32_t d8 = D8[i][0] << 24 | D8[i][1] << 16 | D8[i][2] << 8 | D8[i][3];
+            uint32_t exp = ph_from_8888(&df, rc_exact_pixel(op, mode, sv, mv, d8)), dm = ph_defined_mask(&df);
+            if ((got & dm) != (exp & dm)) { vf_violation("c01-origin-mismatch", "%s: got %x, equations give %x (destination was %x)", what, got, exp, Draw[i]); return; }
+        } else {
+            if (!rc_real_pixel(op, mode, Sp, Mr, D[i], r)) continue;
+            for (int k = 0; k < 4; k++) {
+                if (!dw[k]) continue;
+                unsigned u = (got >> dsft[k]) & ((1u << dw[k]) - 1);
+                if (!within(u, r[k], steps, dw[k])) { vf_violation("c01-origin-mismatch", "%s: channel %c got %u of %u, equations give %.5Lf (= %.3Lf), tolerance %d", what, "argb"[k], u, (1u << dw[k]) - 1, r[k], rc_clamp01(r[k]) * ((1u << dw[k]) - 1), steps); return; }
+            }
+        }
+        if (got != Draw[i]) nt++;
+        h = vf_mix(h, got);
+    }
+    vf_count_eval((uint64_t)N); vf_count_nontrivial(nt);
+    if (!vf_in_confirm) vf_outcome(vf_mix(h, idx));
+}
+
 typedef struct { fmt_ctx c; uint64_t first, count; } fmt_job;
 static fmt_job *fmt_jobs; static int fmt_njobs, fmt_cap; static uint64_t fmt_total;
 static void fmt_add(fmt_ctx *c, uint64_t strips)
@@ -666,6 +741,7 @@ int main(int argc, char **argv)
     vf_space_run("format-triples", fmt_total, fmt_case_all, NULL);
     vf_space_run("shared-storage-source-and-mask", 2 * 5 * 4 * 3 * 3 * 2 * 2 * 2 * 2, alias_case, NULL);
     vf_space_run("solid-fill-sources-16bit", (uint64_t)RC_NOPS * 11 * 3 * 4 * 3 * 2, solid_case, NULL);
+    vf_space_run("source-and-mask-origins-outside-the-images", (uint64_t)RC_NOPS * 3 * 3 * 3 * 3 * 3 * 2, origin_case, NULL);
     vf_space_run("indexed-sources-with-translucent-palette-entries", (uint64_t)RC_NOPS * 11 * 3 * 4 * 3 * 2, indexed_src_case, NULL);
     vf_bounds = th ? "exact: 13 ops x {none: full 2^32 (sc,sa,dc,da); unified: (sc,sa,ma) full 2^24 x (dc,da) in B8^2 + alpha cube; CA: (sc,mc,ma) full 2^24 x (sa,dc,da) in B6^3 and (sc,sa,mc) full 2^24 x (dc,da) in T^2 x ma in B6 [default chain; boundary alphabets under general-only]}; "
                      "tolerance: 40 ops x 3 modes x B8^4..6 + full (sa,da) plane; formats: 53 ops x 17x17 format pairs x 5 mask presentations x per-channel {0,1,mid,max-1,max} (first 2048 strips of 128), and again with the source / the mask delivered by the transformed-image fetchers (first 128 strips, mask value fastest), and with REPEAT_NORMAL set on alpha-less destinations / sources (operator reduction); cfgs default+general"
